@@ -12,9 +12,14 @@
          answer   after each history step:  mdc/delta/krn(step sw)/krn(probe_1)/…
     satfunc.killough <cfg> <tableD> <uD> <sD> <tableI> <uI> <sI> <Sncrd,Sncri,Snmaxd,modParam> <start> <history> <probes>
          answer   for the initial state (probe 0.5) and after each history step:  mdc/Sncrt/krn(step sw)/krn(probe_1)/…
+    satfunc.hystfull <sys ow|go|gw> <enabled 0/1> <krModel> <pcModel> <modParam,curvature> <cfg> <tableD> <uD> <sD> <tableI> <uI> <sI>
+                     <infoD (10)> <infoI (10)> <history pcSw,krwSw,krnSw;…> <probes>
+         answer   statics, then for the initial state and after each `update`: the dynamic members, `update`'s
+                  return value and krw/krn/pcnw at every probe (third round: models 0–4, Pc hysteresis, three systems)
 -/
 import OpmVerif.Model.Hyst
 import OpmVerif.Model.Killough
+import OpmVerif.Model.HystFull
 import OpmVerif.Model.PvtIO
 -- driver: prefix=satfunc handler=OpmVerif.Satfunc.handle
 
@@ -57,6 +62,43 @@ def killoughSteps (p : Killough.Static Float) (tiny : Float) (probes : List Floa
     let st' := Killough.update p tiny st sw
     killoughShow p st' sw probes :: killoughSteps p tiny probes st' rest
 
+/-! ### third round: the complete hysteresis object -/
+
+def floatLits : HystFull.Lits Float := { tiny := 1.0e-12, micro := 1.0e-6, two := 2.0, m17 := -17.0 }
+
+def parseHInfo (s : String) : HystFull.HInfo Float :=
+  let l := parseList s
+  let g := fun (i : Nat) => l.getD i 0
+  { Swl := g 0, Sgl := g 1, Swcr := g 2, Sgcr := g 3, Sowcr := g 4, Sogcr := g 5, Swu := g 6, Sgu := g 7,
+    maxPcow := g 8, maxPcgo := g 9 }
+
+def parseSys (s : String) : HystFull.Sys := if s = "go" then .go else if s = "gw" then .gw else .ow
+
+def parseTriples (s : String) : List (HystFull.Triple Float) :=
+  if s = "-" then [] else (s.splitOn ";").map fun t =>
+    let l := parseList t
+    { pc := l.getD 0 0, krw := l.getD 1 0, krn := l.getD 2 0 }
+
+def fullShow (c : HystFull.Cfg Float) (f : HystFull.Laws Float) (p : HystFull.Static Float)
+    (st : HystFull.State Float) (chg : Bool) (probes : List Float) : String :=
+  "/".intercalate ([showF st.pcMdc, showF st.pcMic, if st.initialImb then "1" else "0", showF st.krnMdc, showF st.krwMdc,
+      showF st.delta, showF st.Sncrt, showF st.Swcrt, showF st.KrwdHy, showF st.Krwd_sncrt, showF (st.KrndHy / p.KrndMax),
+      if chg then "1" else "0"] ++
+    probes.map fun q => showF (HystFull.krw c floatLits f p st q) ++ ":" ++ showF (HystFull.krn c f p st q) ++ ":" ++
+      showF (HystFull.pcnw c floatLits f p st q))
+
+def fullSteps (c : HystFull.Cfg Float) (f : HystFull.Laws Float) (p : HystFull.Static Float) (probes : List Float) :
+    HystFull.State Float → List (HystFull.Triple Float) → List String
+  | _, [] => []
+  | st, s :: rest =>
+    let st' := HystFull.update c floatLits f p st s
+    fullShow c f p st' (HystFull.changed c floatLits p st s) probes :: fullSteps c f p probes st' rest
+
+def lawsOf (c : Config) (tD : PLParams Float) (uD sD : Points Float) (tI : PLParams Float) (uI sI : Points Float) :
+    HystFull.Laws Float :=
+  { krwD := epsKrw c tD uD sD, krnD := epsKrn c tD uD sD, pcD := epsPcnw c tD uD sD,
+    krwI := epsKrw c tI uI sI, krnI := epsKrn c tI uI sI, pcI := epsPcnw c tI uI sI, krnIInv := epsKrnInv c tI uI sI }
+
 def handle (op : String) (args : List String) : String :=
   match op, args with
   | "satfunc.pl", [xs, ys, qs] =>
@@ -88,6 +130,19 @@ def handle (op : String) (args : List String) : String :=
     let tiny : Float := 1.0e-12
     let st := Killough.init p tiny (parseF start)
     " ".intercalate (killoughShow p st 0.5 (parseList probes) :: killoughSteps p tiny (parseList probes) st (parseList hist))
+  | "satfunc.hystfull", [sys, en, krm, pcm, mc, cfg, tD, uD, sD, tI, uI, sI, iD, iI, hist, probes] =>
+    let f := lawsOf (parseCfg cfg) (parseTable tD) (parsePoints uD) (parsePoints sD) (parseTable tI) (parsePoints uI) (parsePoints sI)
+    let mcl := parseList mc
+    let c : HystFull.Cfg Float :=
+      { enabled := en = "1", krModel := krm.toInt?.getD (-1), pcModel := pcm.toInt?.getD (-1),
+        modParam := mcl.getD 0 0, curvature := mcl.getD 1 0 }
+    let p := HystFull.mkStatic (parseSys sys) c floatLits f (parseHInfo iD) (parseHInfo iI)
+    let st := HystFull.init c floatLits f p
+    let pr := parseList probes
+    " ".intercalate (
+      "/".intercalate [showF p.Sncrd, showF p.Sncri, showF p.Snmaxd, showF p.Swcrd, showF p.Swcri, showF p.Swmaxd, showF p.Swmaxi,
+        showF p.KrwdMax, showF p.Krwd_sncri, showF p.Krwi_snmax, showF p.Krwi_snrmax, showF (HystFull.pcWght floatLits f p), showF p.curv]
+      :: fullShow c f p st false pr :: fullSteps c f p pr st (parseTriples hist))
   | _, _ => "bad-op"
 
 end OpmVerif.Satfunc
